@@ -60,6 +60,8 @@ type chainView struct {
 	CommitteeAddr util.Uint160     // majority multisignature account of the current committee
 	OracleAddr    util.Uint160     // multisignature account of the designated oracle nodes (zero: none)
 	OraclePending map[uint64]int64 // pending oracle request id -> GAS reserved for the response
+	// second extension round: meaning of the non-standard witnesses of the cast (nil outside the witness histories)
+	PW *pwExt
 }
 
 type verdict struct {
@@ -216,6 +218,16 @@ func (cv *chainView) txRules(t *transaction.Transaction) []string {
 	}
 	need := int64(size) * cv.FeePerByte
 	for i := range t.Signers {
+		if cv.PW != nil {
+			if handled, ws, cost := cv.PW.witness(cv, t, i); handled {
+				why = append(why, ws...)
+				need += cost
+				if cv.Blocked[t.Signers[i].Account] {
+					why = append(why, "signer blocked by policy")
+				}
+				continue
+			}
+		}
 		if len(t.Scripts[i].VerificationScript) == 0 && len(t.Scripts[i].InvocationScript) == 0 {
 			// contract signer: the deployed contract's verify method decides
 			if t.Signers[i].Account == nativehashes.OracleContract {
